@@ -307,6 +307,63 @@ def run_env(cfg, sid, transport, ka, latency, reject, seed):
     return n, vio
 
 
+def job_after_lost_tail(j):
+    """The call before the write was a read whose answer arrived only as a head of k bytes on every attempt (the read
+    failed), for EVERY k: the write that follows is one write, carries the encoding and reads back."""
+    cfg, sid, ka, seed = j
+    vio = []
+    n = 0
+    probe = make_rig(cfg, 'udp', fill=lambda a: 0)
+    if probe.call(probe.inv.read_device_info)[0] != 'ok':
+        return 0, []
+    s0 = probe.inv._settings.get(sid)
+    if s0 is None or not in_scope(cfg, s0):
+        return 0, []
+    t = type(s0).__name__
+    nregs = (refdec.size_of(s0) + 1) // 2 if t not in ('ByteH', 'ByteL') else 1
+    v = domain(s0, False)
+    v = v[len(v) // 2]
+    vs = v.hex() if isinstance(v, bytes) else str(v)
+    for rid in ('work_mode', 'eco_mode_1', 'time', 'battery_discharge_depth'):
+        rs = probe.inv._settings.get(rid)
+        if rs is None:
+            continue
+        total = 2 + 3 + 2 * ((refdec.size_of(rs) + 1) // 2) + 2          # AA55 + unit, function, byte count + registers + CRC
+        for k in range(1, total):
+            r = make_rig(cfg, 'udp', fill=lambda a: ((a * 40503 + seed * 31 + 7) & 0xFFFF) % 60000, T=1, R=1, ka=ka)
+            inv, dev = r.inv, r.dev
+            if r.call(inv.read_device_info)[0] != 'ok':
+                continue
+            l0 = len(dev.log)
+            dev.head_only_at = {l0: k, l0 + 1: k}
+            r.call(inv.read_setting, rid)
+            dev.head_only_at = {}
+            s = inv._settings.get(sid)
+            prior_bytes = dev.rf.getbytes(s.offset, nregs)
+            w0 = len(dev.writes)
+            res = r.call(inv.write_setting, sid, v)
+            n += 1
+            env = f'ka={int(ka)}, after read_setting({rid!r}) whose answer arrived only as its first {k} of {total} bytes'
+            if res[0] != 'ok':
+                vio.append((f'write-succeeds/{t}/after-lost-tail', f'write_setting({sid!r}, {vs}) -> {res[1:]} ({env})', vs))
+                continue
+            writes = dev.writes[w0:]
+            if len(writes) != 1:
+                vio.append((f'exactly-one-write/{t}/after-lost-tail', f'{sid}={vs}: {len(writes)} write requests reached the inverter ({env})', vs))
+            elif dev.rf.getbytes(s.offset, nregs) != refdec.encode(s, v, prior_bytes):
+                vio.append((f'carries-the-encoding/{t}/after-lost-tail', f'{sid}={vs}: registers {dev.rf.getbytes(s.offset, nregs).hex()} ({env})', vs))
+    out = {}
+    for key, cause, vs_ in vio:
+        kk = f"{key}/{cfg['name']}"
+        out.setdefault(kk, []).append(dict(key=kk, clause=key.split('/')[0], replay=dict(part='lost-tail', cfg=cfg, sid=sid, ka=ka, seed=seed),
+                                           detail=dict(cause=cause, setting=sid, value=vs_)))
+    res = []
+    for key, lst in out.items():
+        lst[0]['n'] = len(lst)
+        res.append(lst[0])
+    return n, res
+
+
 def job_neighbour(j):
     """A setting written on an object reaches THAT model's registers also when another object of the same family but
     another model class was detected and used in the process meanwhile.  The definitions (type, address) valid for the
@@ -443,6 +500,12 @@ def run(tier, seed, rep):
                     if transport == 'udp' or tier == 'thorough':
                         for code in (3, 4, 6):
                             ejobs.append((cfg, sid, transport, ka, 0.001, code, seed))
+    nlt = 0
+    ltjobs = [(c, sid, ka, seed) for c in settings_configs() if c['family'] != 'ES'
+              for sid in ('grid_export_limit', 'eco_mode_2', 'battery_discharge_depth') for ka in (False, True)]
+    for n, res in pmap(job_after_lost_tail, ltjobs):
+        nlt += n
+        rep.add_many(res)
     nnb = 0
     for n, res in pmap(job_neighbour, [(c, seed) for c in settings_configs()]):
         nnb += n
@@ -457,7 +520,7 @@ def run(tier, seed, rep):
         total += n
         ne += e
         rep.add_many(res)
-    cov = dict(writes_with_a_neighbour_object=nnb, environment_runs=nenv, api_session_histories=_api['histories'], api_session_states=_api['states'],
+    cov = dict(writes_after_a_read_that_lost_its_tail=nlt, writes_with_a_neighbour_object=nnb, environment_runs=nenv, api_session_histories=_api['histories'], api_session_states=_api['states'],
                states=max(ne, 1), transitions=max(total, 1), executions=total, traces_validated_against_impl=total,
                settings_jobs=len(jobs), distinct_encodings_written=ne, exhaustive=(tier == 'thorough'),
                bound='every setting of ET (eco v1 / v2 / 745 variants), DT (single / three phase) and the register-addressed ES '
@@ -485,6 +548,9 @@ def replay(r):
     cfg['refused'] = tuple(cfg['refused'])
     if 'firmware' in cfg and isinstance(cfg['firmware'], dict):
         cfg['firmware'] = bytes.fromhex(cfg['firmware']['hex'])
+    if r.get('part') == 'lost-tail':
+        n, res = job_after_lost_tail((cfg, r['sid'], r['ka'], r['seed']))
+        return dict(writes=n, violations=[(v['key'], v['detail']['cause']) for v in res])
     if r.get('part') == 'neighbour':
         n, res = job_neighbour((cfg, r['seed']))
         return dict(writes=n, violations=[(v['key'], v['detail']['cause']) for v in res])
